@@ -370,10 +370,15 @@ func c14Workflows(t *testing.T, r *vReport, idx *int64, root string) {
 	}
 	// falsy / empty defaults still are defaults
 	ists = append(ists, ist{true, "string", true, true, "''"}, ist{true, "number", true, true, "0"}, ist{true, "boolean", true, true, "false"})
+	// form: 0 = explicit "required: <bool>", 1 = description only (no required key), 2 = empty body
 	secretSets := [][]struct {
 		name     string
 		required bool
-	}{nil, {{"SecOne", true}}, {{"SecOne", false}, {"sectwo", true}}}
+		form     int
+	}{nil, {{"SecOne", true, 0}}, {{"SecOne", false, 0}, {"sectwo", true, 0}},
+		// declaration order and absent keys: a required secret before / after one without the key
+		{{"SecOne", true, 0}, {"sectwo", false, 1}}, {{"SecOne", true, 0}, {"sectwo", false, 2}}, {{"SecOne", false, 1}, {"sectwo", true, 0}},
+		{{"SecOne", true, 0}, {"sectwo", false, 0}, {"secthree", false, 1}}}
 	lintBoth := func(dir, callee, caller string) (fileErrs, astErrs []*Error, err error) {
 		calleeP := filepath.Join(dir, ".github/workflows/callee.yml")
 		callerP := filepath.Join(dir, ".github/workflows/caller.yml")
@@ -444,7 +449,14 @@ func c14Workflows(t *testing.T, r *vReport, idx *int64, root string) {
 					if len(secs) > 0 {
 						c.WriteString("    secrets:\n")
 						for _, s := range secs {
-							c.WriteString("      " + s.name + ":\n        required: " + fmt.Sprint(s.required) + "\n")
+							switch s.form {
+							case 0:
+								c.WriteString("      " + s.name + ":\n        required: " + fmt.Sprint(s.required) + "\n")
+							case 1:
+								c.WriteString("      " + s.name + ":\n        description: d\n")
+							default:
+								c.WriteString("      " + s.name + ":\n")
+							}
 						}
 					}
 					if nout == 1 {
@@ -685,7 +697,7 @@ func upperAll(ss []string) []string {
 func TestVerifC14(t *testing.T) {
 	r := vNewReport("C14")
 	defer r.Write(t)
-	r.Extra["rule"] = "every spec of the bundled popular-actions table x call sites {none, required, all, required minus each, one extra, re-cased} with references to every declared and one undeclared output; 343 local action interfaces (3 inputs over absent/optional/required/required+default/optional+default/required+empty default/required+falsy default) x 0-2 outputs x every subset of declared inputs + extra + re-cased; 256 reusable-workflow input interfaces (2 inputs over absent | type x required x default incl. empty and falsy defaults) x 3 secret sets x 0-1 outputs x 6+ call sites (none, required, all re-cased, extra input, extra secret, inherit, minus each), interface derived from the file and from the AST (callee linted first in the same run); 3 types x 12 typed values; derivation agreement over 3 types x 6 spellings of required x 7 of default x 3 of a secret's required (literal and expression values) x 2 call sites. oracle = set arithmetic on the declared interface. class = (family, call site, expected report counts); non-trivial = something must be reported"
+	r.Extra["rule"] = "every spec of the bundled popular-actions table x call sites {none, required, all, required minus each, one extra, re-cased} with references to every declared and one undeclared output; 343 local action interfaces (3 inputs over absent/optional/required/required+default/optional+default/required+empty default/required+falsy default) x 0-2 outputs x every subset of declared inputs + extra + re-cased; 256 reusable-workflow input interfaces (2 inputs over absent | type x required x default incl. empty and falsy defaults) x 7 secret sets (explicit / absent required key, empty body, both declaration orders) x 0-1 outputs x 6+ call sites (none, required, all re-cased, extra input, extra secret, inherit, minus each), interface derived from the file and from the AST (callee linted first in the same run); 3 types x 12 typed values; derivation agreement over 3 types x 6 spellings of required x 7 of default x 3 of a secret's required (literal and expression values) x 2 call sites. oracle = set arithmetic on the declared interface. class = (family, call site, expected report counts); non-trivial = something must be reported"
 	r.Extra["assumptions"] = []string{"for bundled actions the table itself is the declaration (its content is not frozen)", "assignability per docs/checks.md: string <- string|number, number <- number, boolean <- anything, anything <- any"}
 	root := vTempDir(t, "c14-")
 	if raw := vReplayInput(); raw != nil {
